@@ -956,7 +956,8 @@ for _rid in ("C01-r", "C02-r", "C03-r", "C04-r", "C05-r", "C07-r", "C08-r", "C09
              "C18-s", "C19-s", "C20-s",
              "C01-t", "C02-t", "C03-t", "C04-t", "C05-t", "C07-t", "C08-t", "C09-t",
              "C10-t", "C11-t", "C12-t", "C13-t", "C14-t", "C15-t", "C16-t", "C17-t",
-             "C18-t", "C19-t", "C20-t"):
+             "C18-t", "C19-t", "C20-t",
+             "C13-u", "C18-u", "C20-u", "C20-v"):
     refactored(_rid)
 
 
